@@ -95,6 +95,21 @@ def replay_chunk(args):
                 exp[name] = expected_lines(lines_of, bits)
             if not conf:
                 continue
+            # platforms with SEVERAL commands for the file (same macro names, different values where the
+            # enumeration has them): the platform uses a line iff one of its commands does
+            oks = [(a, b, bits) for (a, b, ok, bits) in case["exp"] if ok]
+            for k in range(3 if len(oks) >= 2 else 0):
+                first = rnd.choice(oks)
+                same = [o for o in oks if o is not first and (o[0] == "U") == (first[0] == "U") and (o[1] == "U") == (first[1] == "U")]
+                pool = same if (same and k < 2) else [o for o in oks if o is not first]
+                grp = [first] + rnd.sample(pool, min(len(pool), rnd.choice([1, 1, 2])))
+                rnd.shuffle(grp)
+                name = f"M{k}"
+                conf[name] = [cbi.entry(path, _defines(a, b, rnd)) for a, b, _ in grp]
+                u = set()
+                for _, _, bits in grp:
+                    u |= expected_lines(lines_of, bits)
+                exp[name] = u
             stats["evals"] += len(conf)
             if len({frozenset(v) for v in exp.values()}) > 1:
                 stats["nontrivial"] += 1
@@ -133,9 +148,10 @@ def replay_chunk(args):
                 used = {ln for ln, ps in got.items() if name in ps}
                 if used != e:
                     fails.append(dict(layer="G", tags=sorted(base_tags), symptom="attribution-differs",
-                                      detail=f"cfg={name} defines={conf[name][0]['defines']} extra={sorted(used - e)} "
+                                      detail=f"cfg={name} defines={[e['defines'] for e in conf[name]]} extra={sorted(used - e)} "
                                              f"missing={sorted(e - used)}\n{text}",
                                       case=dict(prog=prog, cfg=name, text=text, defines=conf[name][0]["defines"],
+                                                commands=[e["defines"] for e in conf[name]],
                                                 expected=sorted(e), got=sorted(used))))
                     break
             if trace_file and os.path.exists(trace_file):
@@ -343,9 +359,13 @@ def replay(ctx, path):
         d = tempfile.mkdtemp()
         fn = os.path.join(d, "m.c")
         open(fn, "w").write(case["text"])
-        st, cb, logs, err = cbi.run_find(d, {"p": [cbi.entry(fn, case["defines"])]})
+        st, cb, logs, err = cbi.run_find(d, {"p": [cbi.entry(fn, ds) for ds in case.get("commands", [case["defines"]])]})
         print("error:", err)
         if st:
-            print("used lines:", sorted(k for k, v in cbi.line_attr(st, fn).items() if k != "__dup__" and "p" in v))
+            used = sorted(k for k, v in cbi.line_attr(st, fn).items() if k != "__dup__" and "p" in v)
+            print("used lines:", used)
+            if "expected" in case and used != case["expected"]:
+                print("REPRODUCED: expected", case["expected"])
+                ctx.fail("G", c.get("tags", []), c.get("symptom", "attribution-differs"), f"used={used} expected={case['expected']}", case)
         shutil.rmtree(d)
     ctx.cov["evaluations"] = 1
